@@ -5,14 +5,14 @@ package corerad
 import "math/big"
 
 // bigInt is a tiny wrapper so that 128-bit address values sort numerically.
-type bigInt struct{ v *big.Int }
+type vfBigInt struct{ v *big.Int }
 
-func newBig(s string) *bigInt {
+func vfNewBig(s string) *vfBigInt {
 	v, ok := new(big.Int).SetString(s, 10)
 	if !ok {
 		v = big.NewInt(0)
 	}
-	return &bigInt{v}
+	return &vfBigInt{v}
 }
-func (b *bigInt) addOne() *bigInt         { return &bigInt{new(big.Int).Add(b.v, big.NewInt(1))} }
-func (b *bigInt) Cmp(o *bigInt) int       { return b.v.Cmp(o.v) }
+func (b *vfBigInt) addOne() *vfBigInt         { return &vfBigInt{new(big.Int).Add(b.v, big.NewInt(1))} }
+func (b *vfBigInt) Cmp(o *vfBigInt) int       { return b.v.Cmp(o.v) }
